@@ -1266,7 +1266,6 @@ func sliceReadsLoadErr(v ssa.Value, name string, isField func(ssa.Value, string)
 	return false
 }
 
-
 // runeCounterUnit: x is a counter of a `for ... range <string>` loop: a phi in the block of the string iterator's
 // Next, 0 on entry, and on the way back either itself + 1 in every iteration (rune count) or a merge of itself and
 // itself + 1 (a count of some of the runes).
